@@ -738,7 +738,49 @@ def order_independence(ctx, rng, n_orders):
             rs.close()
 
 
+def dead_token_release(ctx, rng, n):
+    """'Nothing about a user is released for an invalid token', over HISTORIES: which tokens are dead is a matter of
+    what happened before (expiry, revocation of the token / its parent / its grant / the client or user session,
+    refresh-token rotation followed by a code replay, remove-session).  The session histories of C02 / C03 / C05 are run
+    here with C03's reference liveness (computed from the history alone) as the oracle at the release points: a token
+    the reference says is dead must not be served by userinfo nor reported active (with claims) by introspection.
+    Oracle only: the model side of these histories is C03's."""
+    import drv_C03
+    import drv_session_common as common
+    import sess
+    sc = ["openid", "profile", "email", "offline_access"]
+    fixed = []
+    for oidc in (True, False):
+        fl = "oidc" if oidc else "oauth2"
+        a = 4 if oidc else 3           # tokens per redemption: access, refresh (+ id token)
+        # rotation, then the code is presented again: everything that descends from the first redemption is dead,
+        # including what the rotated refresh token minted
+        fixed.append(("rotation-then-code-replay-" + fl, oidc, True, [
+            ("authz", "diana", "client_1", sc), ("tparse", "client_1", ("tok", 0), "same"), ("proc", 0, None),
+            ("rparse", "client_1", ("tok", 2), None), ("proc", 1, None),
+            ("rparse", "client_1", ("tok", 2 + a - 1 if False else len(range(a)) + 2), None), ("proc", 2, None),
+            ("tparse", "client_1", ("tok", 0), "same"), ("proc", 3, None)]
+            + [("userinfo", ("tok", t)) for t in range(1, 3 * a + 1) if oidc]
+            + [("introspect", "client_1", ("tok", t)) for t in range(1, 3 * a + 1)]))
+        fixed.append(("revoke-refresh-then-parent-" + fl, oidc, True, [
+            ("authz", "babs", "client_2", sc), ("tparse", "client_2", ("tok", 0), "same"), ("proc", 0, None),
+            ("rparse", "client_2", ("tok", 2), None), ("proc", 1, None),
+            ("api_revoke", ("tok", 2), False), ("api_revoke", ("tok", 0), True)]
+            + [("userinfo", ("tok", t)) for t in range(1, 2 * a + 1) if oidc]
+            + [("introspect", "client_2", ("tok", t)) for t in range(1, 2 * a + 1)]))
+    for label, oidc, roi, ops in fixed:
+        common.one_history(ctx, rng, None, oidc, roi, [drv_C03.Liveness(ctx)], "c07-" + label, fixed_ops=ops)
+    for i in range(n):
+        oidc = (i % 3 != 2)
+        roi = (i % 2 == 0)             # refresh-token rotation on every other provider
+        plan = sess.gen_history(rng, rng.randint(25, 60), focus="multi" if i % 3 == 1 else "mixed")
+        common.one_history(ctx, rng, plan, oidc, roi, [drv_C03.Liveness(ctx)], "c07-dead-%d" % i,
+                           rules=["explicit", "implied", "handler", "partial"][i % 4])
+    ctx.count("dead-token-release:histories", n + len(fixed))
+
+
 def run(ctx):
+    dead_token_release(ctx, ctx.rng, 10 if ctx.quick else 300)
     order_independence(ctx, ctx.rng, 6 if ctx.quick else 24)
     unit_cases(ctx, ctx.rng, 400 if ctx.quick else 12000)
     e2e(ctx, ctx.rng, 3 if ctx.quick else 40)
